@@ -14,17 +14,22 @@ Legs (DESIGN 3.3):
   argument conversions (parse.c funcall(), C11 6.5.2.2): checklib/c06_args.py - text tie of the whole call against
                    Model/C06Args.callText (over the argStep translated from parse.c), execution family parameter type x argument
                    type x boundary values x position x callee compiler, register dump of what the argument register holds.
+  return values (parse.c `return e;`, ND_RETURN, epilogue, the normalisation after `call`; C11 6.8.6.4p3): checklib/c06_ret.py - text
+                   tie of `T f(void) { return g; }` / `{ return h(); }` against Model/C06Ret (over tools/extract/retstmt.py), execution
+                   family return type x expression type x boundary values x form x caller/callee compiler, dump of what %rax / %xmm0 /
+                   %st(0) hold on return, assembly callees that leave garbage above the returned type.
 """
 import os, json, itertools, hashlib, random
 from .framework import *
 from . import c06_gen as G
 from . import c06_args as A
+from . import c06_ret as R
 from .c06_gen import Sig
 
 PROPERTY = 'C06'
-GEN_MODULES = ['templates', 'funcall']
-LEAN_TARGETS = ['ChibiVerif.Props.C06', 'ChibiVerif.Props.C06Fp', 'ChibiVerif.Findings.C06']
-PROPS_FILES = ['ChibiVerif/Props/C06.lean', 'ChibiVerif/Props/C06Fp.lean']
+GEN_MODULES = ['templates', 'funcall', 'retstmt', 'commontype', 'casttable']
+LEAN_TARGETS = ['ChibiVerif.Props.C06', 'ChibiVerif.Props.C06Fp', 'ChibiVerif.Props.C06Ret', 'ChibiVerif.Findings.C06']
+PROPS_FILES = ['ChibiVerif/Props/C06.lean', 'ChibiVerif/Props/C06Fp.lean', 'ChibiVerif/Props/C06Ret.lean']
 NEEDS_HOOKS = False
 TRUSTED_BASE = [
     'Lean 4.33.0 kernel; axioms admitted: propext, Classical.choice, Quot.sound (audited per theorem on every run)',
@@ -43,6 +48,14 @@ TRUSTED_BASE = [
     'Model/X86 validated against the CPU by the C01 check) and on C02 (`C02_select`, relative to FpuSpec)',
     'specification lean/ChibiVerif/Spec/C06ArgsSpec.lean (my reading of C11 6.5.2.2p2/p6/p7) and Spec/IntSpec.convert, validated on every '
     'run against the values a gcc-compiled callee receives from a gcc-compiled caller',
+    'translator tools/extract/retstmt.py (the `return` arm of parse.c stmt(), case ND_RETURN, the switch after `call` in case ND_FUNCALL, '
+    'the epilogue of emit_text, as Gen.ReturnStmt); hand model lean/ChibiVerif/Model/C06Ret.lean of the text around them, tied on every run by '
+    'equality of the complete body of generated `return` functions with `chibicc -S`; the return-value theorems rest on C01 (`C01_cast`) and '
+    'C02 (`C02_select`, relative to FpuSpec); the cast table and type descriptors (tools/extract/casttable.py, commontype.py) are regenerated '
+    'by this check too',
+    'specification lean/ChibiVerif/Spec/C06RetSpec.lean (my reading of C11 6.8.6.4p3 and of what psABI 3.2.3 leaves unspecified above the '
+    'returned type), validated on every run: gcc / clang callers cope with assembly callees that leave garbage above the type, gcc / clang '
+    'callees satisfy the low-bytes minimum',
 ]
 ASSUMPTIONS = [
     'argument and return types: _Bool, char, short, int, long, pointers, float, double, long double, structs/unions/arrays of '
@@ -52,6 +65,8 @@ ASSUMPTIONS = [
     'balanced and does not write above %rsp (that is C20 / C01_value); arguments of struct type have the parameter\'s type (6.5.2.2p2, '
     'not diagnosed by chibicc)',
     '`asm` statements are user text and excluded from the callee-saved claim',
+    'return-value theorems: the value of the returned expression in %rax / %xmm0 / %st(0) is taken as given (C01 / C02), as is the '
+    'x87 stack being empty below it (C20); between `call` returning and the caller\'s normalising instruction only `add $N, %rsp` runs',
 ]
 
 KNOWN_IDS = ['C06-struct-with-ldouble', 'C06-packed-unaligned-param', 'C06-padding-eightbyte',
@@ -117,6 +132,10 @@ def corpus_sigs():
         ('fixed-6111dbb', Sig(None, [I, LD, I], n_named=1, variadic=True)),
         ('fixed-d4810fa', Sig(None, [I] + [D] * 10, n_named=1, variadic=True)),
         ('f12', Sig(S(F, F, F), [S(F, F, F), I])),
+        ('fixed-7826748-fff', Sig(S(F, F, F), [])),
+        ('fixed-7826748-ffd', Sig(S(F, F, D), [I])),
+        ('fixed-7826748-df', Sig(S(D, F), [S(D, F)])),
+        ('fixed-7826748-f3', Sig(S(G.arr(F, 3)), [D, S(F, F, F)], depth=1)),
         ('lf', Sig(S(L, F), [S(L, F), S(F, L)])),
         ('narrow', Sig(G.BOOL, [G.BOOL, G.CHAR, G.SCHAR, G.SHORT, G.USHORT, G.UCHAR])),
         ('narrow-ret-sc', Sig(G.SCHAR, [G.CHAR] * 7)),
@@ -322,6 +341,12 @@ def gen_sigs(ctx):
     for rid in KNOWN_IDS:
         for _ in range(6 if ctx.thorough else 2):
             out.append(('region', region_sig(rng, rid)))
+    # all-float structs of 12 / 16 bytes (and their neighbours) as return values, behind a few arguments, at depth
+    fl = R.float_structs()
+    if not ctx.thorough:
+        fl = fl[:3] + rng.sample(fl[3:], 3)
+    for t in fl:
+        out.append(('ret-float-struct', Sig(t, [G.rand_param(rng) for _ in range(rng.randrange(0, 3))], depth=rng.choice([0, 0, 1, 2]))))
     # return classes at depth
     for _ in range(60 if ctx.thorough else 10):
         out.append(('ret', Sig(G.rand_ret(rng), [G.rand_param(rng) for _ in range(rng.randrange(0, 4))], depth=rng.choice([0, 1, 2]))))
@@ -1130,11 +1155,21 @@ def correspond(ctx, corr):
                  'SSE arguments, through a function pointer, variadic tail in registers / overflow area, unprototyped callee} x argument '
                  'expression {variable, member, element, dereference} with callers chibicc/gcc/clang and callees gcc -O0, gcc -O2, clang -O2, '
                  'chibicc against the gcc->gcc reference and Spec.IntSpec.convert; (6) the 64-bit image of the argument register / stack slot. '
-                 'distinct = by (types, value, position, form); every one of these is non-trivial (a conversion or promotion takes place).')
+                 'distinct = by (types, value, position, form); every one of these is non-trivial (a conversion or promotion takes place).  '
+                 'Return values: (7) whole-body text of `T f(void) { return g; }` / `{ return h(); }` for every scalar pair, arrays, structs '
+                 '(the all-float structs of 12 and 16 bytes) vs Model/C06Ret; (8) executed: return type x expression type x boundary values x '
+                 'form {parameter, global, member, dereference} x {direct, function pointer} with callers and callees as in (5), stored and '
+                 'directly used results; (9) %rax / %xmm0 / %st(0) as a chibicc callee leaves them vs C06_return_extension; (10) assembly '
+                 'callees that leave garbage above the returned type, read by chibicc / gcc / clang callers.')
     # argument conversions first: cheap, and independent of the signature legs
     A.run_tie(ctx, corr)
     A.run_exec(ctx, corr)
     A.run_dump(ctx, corr)
+    # return values
+    R.run_tie(ctx, corr)
+    R.run_exec(ctx, corr)
+    R.run_dump(ctx, corr)
+    R.run_stub(ctx, corr)
     cases = gen_sigs(ctx)
     # witnesses of the known findings (they must still fail; anything else that fails is new)
     known = known_witnesses()
@@ -1192,6 +1227,12 @@ def search(ctx, broken, corr):
         A.run_exec(ctx, c0, report_limit=1)
         if not c0.violations:
             A.run_dump(ctx, c0)
+        if not c0.violations:
+            R.run_exec(ctx, c0, report_limit=1)
+        if not c0.violations:
+            R.run_dump(ctx, c0)
+        if not c0.violations:
+            R.run_stub(ctx, c0)
     finally:
         ctx.thorough = was
     if c0.violations:
@@ -1219,6 +1260,15 @@ def replay(ctx, corr, path):
         corr.evaluations = 1
         A.run_exec(ctx, corr, cases=[A.case_from_payload(payload)])
         print('replay:', 'still fails' if corr.violations else 'the call now passes')
+        return
+    if payload.get('mode') == 'retexec' and payload.get('case'):
+        corr.evaluations = 1
+        R.run_exec(ctx, corr, cases=[R.case_from_payload(payload)])
+        print('replay:', 'still fails' if corr.violations else 'the call now passes')
+        return
+    if payload.get('mode') in ('retdump', 'retstub'):
+        (R.run_dump if payload['mode'] == 'retdump' else R.run_stub)(ctx, corr)
+        print('replay:', 'still fails' if corr.violations else 'the probe now passes')
         return
     if payload.get('mode') == 'argdump':
         A.run_dump(ctx, corr)
@@ -1309,12 +1359,20 @@ MANIFEST = {
                   '(C06_arg_bool_normalised), narrow arguments are extended to 32 bits (C06_arg_extension), chibicc\'s callee reads only the low '
                   'sizeof bytes (C06_param_home), trailing arguments are promoted (C06_arg_default_promotions); with a floating side relative to '
                   'C02\'s FpuSpec (Props/C06Fp.lean: C06_arg_convert_fp, C06_arg_bool_normalised_fp, C06_arg_default_promotions_fp).  '
+                  'Return values (the return arm of parse.c stmt(), ND_RETURN, the epilogue and the normalisation after `call`, translated from '
+                  'the source on every run; Props/C06Ret.lean): `return e;` converts to the return type exactly for scalar return types '
+                  '(C06_return_stmt_spec), caller and callee split struct returns at the same size (C06_return_struct_path), for every pair of '
+                  'integer types and all 2^64 register contents the call expression has the C11 conversion of the returned value '
+                  '(C06_return_convert, on top of C01_cast), a chibicc caller reads only the low sizeof bytes of %rax (C06_return_caller), a '
+                  'chibicc callee returns narrow values extended to 32 bits and _Bool as exactly 0 or 1 (C06_return_extension), with a '
+                  'floating side relative to FpuSpec (C06_return_convert_fp).  '
                   'Tied to the code on every run by equality of the emitted assembly lines, a register-dump comparison with gcc and clang, and '
                   'link-time interoperation in both directions.',
     'level_note': 'Trusted: Lean kernel; the hand model (tied by asm-text equality on generated signatures = testing); tools/extract/templates.py; '
                   'Spec/PsABI.lean (validated against gcc 12 and clang 14 placements each run); `depth` is taken as the real operand-stack depth (C20). '
                   'The argument-conversion theorems take the value of the argument expression in %rax as given (C01) and the stack discipline '
-                  'between an argument\'s push and its pop as given (C20). '
+                  'between an argument\'s push and its pop as given (C20); likewise the return-value theorems start from the value of the '
+                  'returned expression where gen_expr leaves it. '
                   'Five known findings are regions excluded from C06_abi (struct with long double, long double stack alignment, padding-only '
                   'eightbyte, packed struct parameters with unaligned members, va_arg of small structs).',
     'technique': 'Lean 4: structural induction on member trees (has_flonum vs eightbyte classes), induction on argument lists with (gp, fp, stack) '
